@@ -194,9 +194,69 @@ func runServer(chk *vcommon.Check, thorough bool) {
 			_ = srv.Stop(bg)
 		}
 	}
+	// the store gains a certificate in the middle of a request (while the power table is being loaded): nothing at or
+	// beyond the pending instance that the header already advertised may be served
+	for _, L := range []int{2, 4} {
+		chain, _ := honestChain(0, L+1)
+		for f := uint64(0); f < uint64(L); f++ {
+			n++
+			inner := dssync.MutexWrap(datastore.NewMapDatastore())
+			hook := &hookDS{Datastore: inner}
+			st, err := certstore.CreateStore(bg, hook, 0, table0())
+			if err != nil {
+				panic(err)
+			}
+			for _, c := range chain[:L] {
+				if err := st.Put(bg, c); err != nil {
+					panic(err)
+				}
+			}
+			fired := false
+			hook.onGet = func(k datastore.Key) {
+				if !fired && strings.Contains(k.String(), "/power/") {
+					fired = true
+					if err := st.Put(bg, chain[L]); err != nil {
+						panic(err)
+					}
+				}
+			}
+			srv := &certexchange.Server{NetworkName: nn, Host: serverHost, Store: st}
+			if err := srv.Start(bg); err != nil {
+				panic(err)
+			}
+			req := certexchange.Request{FirstInstance: f, Limit: 256, IncludePowerTable: true}
+			hdr, got, _, err := vnet.RawRequest(bg, client, nn, serverHost.ID(), req)
+			_ = srv.Stop(bg)
+			rep := map[string]any{"kind": "server-concurrent-put", "stored": L, "request": fmt.Sprintf("%+v", req)}
+			if err != nil {
+				chk.Violation("server-request-failed", fmt.Sprintf("store of %d growing during request %+v: %v", L, req, err), rep)
+				return
+			}
+			for _, c := range got {
+				if c.GPBFTInstance >= hdr.PendingInstance {
+					chk.Violation("server-serves-at-or-beyond-pending", fmt.Sprintf("store of %d certificates gains one while request %+v is served (fired=%v): instance %d served although the header advertises pending %d", L, req, fired, c.GPBFTInstance, hdr.PendingInstance), rep)
+					return
+				}
+			}
+			chk.Distinct(fmt.Sprintf("srvgrow/%d/%d/%v", L, f, fired))
+		}
+	}
 	chk.Add("evaluations", int64(n))
 	chk.Set("server_requests", n)
 	chk.Sample(map[string]any{"kind": "server", "store": "[5,9)", "request": "{FirstInstance:6 Limit:2 IncludePowerTable:true}"})
+}
+
+// hookDS lets the harness act in the middle of a store operation (on a datastore read).
+type hookDS struct {
+	datastore.Datastore
+	onGet func(datastore.Key)
+}
+
+func (h *hookDS) Get(ctx context.Context, k datastore.Key) ([]byte, error) {
+	if h.onGet != nil {
+		h.onGet(k)
+	}
+	return h.Datastore.Get(ctx, k)
 }
 
 // ---- poller -----------------------------------------------------------------------------------------------------
@@ -230,8 +290,9 @@ func runPoller(chk *vcommon.Check, thorough bool) {
 	type holding struct{ have, gain int }
 	for _, hg := range []holding{{0, 0}, {2, 0}, {0, 3}, {1, 2}} { // certificates the client holds when the poller is created + gained locally before the poll
 		have := hg.have + hg.gain
-		for _, peerHas := range []int{0, 1, 3, total} {
+		for _, peerHasInit := range []int{0, 1, 3, total} {
 			for _, script := range scripts {
+				peerHas := peerHasInit
 				if hg.gain > 0 && len(script) > 1 {
 					continue // local gains are combined with single-behaviour scripts only
 				}
@@ -401,6 +462,33 @@ func runPoller(chk *vcommon.Check, thorough bool) {
 					return
 				}
 				chk.Distinct(fmt.Sprintf("poll/%d/%d/%s/%v/%d", have, peerHas, strings.Join(script, ","), res.Status, latest))
+				// Whatever the peer did, the poller must not be poisoned by it: a following poll of an honest peer that
+				// holds everything must catch up completely and be classified as a hit.
+				step = len(script) + 1000
+				peerHasSaved := peerHas
+				peerHas = total
+				info.validUpTo, info.illegal = latest, false
+				res2, err := p.Poll(bg, peerHost.ID())
+				peerHas = peerHasSaved
+				if err != nil {
+					chk.Violation("poll-internal-error", fmt.Sprintf("%s, then an honest peer: Poll returned error %v", where, err), rep)
+					return
+				}
+				l2 := uint64(0)
+				if l := st.Latest(); l != nil {
+					l2 = l.GPBFTInstance + 1
+				}
+				if res2.Status != polling.PollHit || l2 != total || p.NextInstance != total {
+					chk.Violation("poller-poisoned-by-earlier-response", fmt.Sprintf("%s: a following poll of an honest peer holding %d certificates ends with status %v, store at %d, NextInstance %d (%v)", where, total, res2.Status, l2, p.NextInstance, res2.Error), rep)
+					return
+				}
+				for i := uint64(0); i < l2; i++ {
+					c, err := st.Get(bg, i)
+					if err != nil || !bytes.Equal(blob(c), blob(chain[i])) {
+						chk.Violation("poller-stored-unverified-certificate", fmt.Sprintf("%s, then an honest peer: store holds at instance %d something that is not the genuine certificate", where, i), rep)
+						return
+					}
+				}
 				peerHost.RemoveStreamHandler(certexchange.FetchProtocolName(nn))
 			}
 		}
